@@ -732,3 +732,35 @@ Lemma demoA_fmt_idem : fmt_idem demoA.
 Proof.
   intros t t' H. cbn [demoA a_fmt_float] in H. destruct (lN_eqb t _ || lN_eqb t _); [|discriminate]. injection H as <-. reflexivity.
 Qed.
+
+(* ================= the validation mode only touches the error lists ================= *)
+Lemma canon_ext A B : (forall t, a_fmt_float A t = a_fmt_float B t) -> forall j, canon A j = canon B j.
+Proof.
+  intros H. induction j as [| b | t | s | l IH | kvs IH] using JsonProofs.json_ind'; try reflexivity.
+  - cbn [canon]. unfold norm_num. rewrite H. reflexivity.
+  - rewrite !canon_arr. f_equal. induction IH as [|x l Hx _ IHl]; [reflexivity|].
+    cbn [canon_list]. rewrite Hx, IHl. reflexivity.
+  - rewrite !canon_obj. f_equal.
+    assert (G : forall acc, canon_members A kvs acc = canon_members B kvs acc).
+    { induction IH as [|[k x] r Hx _ IHr]; intros acc; [reflexivity|].
+      cbn [canon_members]. cbn [snd] in Hx. rewrite Hx. destruct (canon B x); [apply IHr|reflexivity]. }
+    apply G.
+Qed.
+
+Definition same_but_mode (A B : absfns) : Prop :=
+  (forall r, a_json_err A r = a_json_err B r) /\ (forall t, a_fmt_float A t = a_fmt_float B t).
+
+(* strict or compat validation: same status, same raw / data, same text delta — only errors / response_errors can differ *)
+Theorem mode_only_errors A B ev raw : same_but_mode A B ->
+  match jclassify A ev raw, jclassify B ev raw with
+  | CInvalid e, CInvalid e' => e = e'
+  | CEvent v _ _ d, CEvent v' _ _ d' => v = v' /\ d = d'
+  | _, _ => False
+  end.
+Proof.
+  intros [He Hf]. unfold jclassify, parse_value_of. destruct (JsonParse.parse raw) as [j|].
+  - rewrite (canon_ext A B Hf j). destruct (canon B j) as [v|].
+    + destruct (MAX_PAYLOAD_NESTING <? json_depth v)%nat; [reflexivity|split; reflexivity].
+    + rewrite He. reflexivity.
+  - rewrite He. reflexivity.
+Qed.
